@@ -19,7 +19,8 @@ DIRS = ['d1', 'd2', 'h/me/d3', 'h/alice/d4']
 MARK = {'d1': 1, 'd2': 2, 'h/me/d3': 3, 'h/alice/d4': 4}
 STATES = ['absent', 'file', 'dir']
 NAMES = ['f.conf', 'sub/f.conf', '@/abs.conf', '@/nope.conf', '@/d1', '~', '~/f.conf', '~alice', '~alice/f.conf', '~nouser/f.conf', '', 'd1/f.conf',
-         '~alice/', '~al', '~alicex/f.conf', './f.conf', '~alice/a/b.conf', '~/a/b/c', '~alice//f.conf', '~me/f.conf', '~alice/d4/f.conf']
+         '~alice/', '~al', '~alicex/f.conf', './f.conf', '~alice/a/b.conf', '~/a/b/c', '~alice//f.conf', '~me/f.conf', '~alice/d4/f.conf',
+         'sub/../f.conf', 'x..y.conf', '../d1/f.conf']
 
 
 class World:
@@ -36,6 +37,7 @@ class World:
         if layout[0] == 'file':
             self.fs[self.p('d1/sub/f.conf')] = ('file', 11)
         self.fs[self.p('abs.conf')] = ('file', 21)
+        self.fs[self.p('d2/x..y.conf')] = ('file', 22)       # a name that merely contains two dots
         self.fs[self.p('h/me/f.conf')] = ('file', 31)
         self.fs[self.p('h/alice/f.conf')] = ('file', 32)
         self.pw = {'me': self.p('h/me'), 'alice': self.p('h/alice')}
@@ -73,18 +75,36 @@ class World:
             return self.pw[user] + rest
         return name
 
+    def walk(self, path):
+        """the entry a path leads to, component by component as the file system does ('.' stays, '..' goes up, every
+        intermediate component must be an existing directory); None if it leads nowhere"""
+        ap = path if path.startswith('/') else self.p(path)
+        if not ap.startswith(self.root):
+            return None
+        cur = self.root
+        for comp in [c for c in ap[len(self.root):].split('/') if c != '']:
+            if self.fs.get(cur, ('x',))[0] != 'dir':
+                return None
+            if comp == '.':
+                continue
+            if comp == '..':
+                if cur == self.root:
+                    return None        # leaves the fixture: nothing the cases rely on
+                cur = cur.rsplit('/', 1)[0]
+                continue
+            cur = cur + '/' + comp
+        return cur if cur in self.fs else None
+
     def isfile(self, path):
         # paths relative to the fixture root (the process's working directory)
         ap = path if path.startswith('/') else self.p(path)
-        ap = ap.replace('/./', '/')
         if ap.endswith('/') and len(ap) > 1:
             return False
-        return self.fs.get(ap, ('x',))[0] == 'file'
+        w = self.walk(path)
+        return w is not None and self.fs[w][0] == 'file'
 
     def marker(self, path):
-        ap = path if path.startswith('/') else self.p(path)
-        ap = ap.replace('/./', '/')
-        return self.fs[ap][1]
+        return self.fs[self.walk(path)][1]
 
     def searchpath(self, dirs, name):
         """dirs: expanded directories in the order they were added"""
@@ -207,7 +227,7 @@ def shard(sh):
             world = World(root, layout)
             cases, exps = [], []
             for fill in fills:
-                c, exp, dirs = build_case(world, seq, fill, NAMES[:10] + NAMES[11:12] + NAMES[15:16] + NAMES[19:21])
+                c, exp, dirs = build_case(world, seq, fill, NAMES[:10] + NAMES[11:12] + NAMES[15:16] + NAMES[19:24])
                 cases.append(c)
                 exps.append(exp)
             for c, e, r, fill in zip(cases, exps, drv.run(cases), fills):
